@@ -1,3 +1,126 @@
-(* C13 - reactive subscribers see every change exactly once, in order. Statements only. *)
-From Coq Require Import NArith List.
-From Verif.C13_Reactive Require Import Model Corr.
+(* C13 - reactive subscribers see every change exactly once, in order. Statements only.
+   Model: Verif.C13_Reactive.Model (interleaving system; a schedule is a list of (thread, choice); the choice
+   supplies the next call of an idle thread, so "forall sch" ranges over any number of writers, subscribers
+   and unsubscribers, their programs and all their interleavings).
+   [hist s] is the global sequence of notified changes (order of the writers' value steps); for a callback
+   record b: [log b] what the callback was invoked with, [regat b] the number of changes before its
+   registration, [initv b] the value read at registration, [gotinit b] whether the initial callback ran. *)
+From Coq Require Import NArith List Bool Arith.
+From Verif.C13_Reactive Require Import Model Inv Proofs.
+Import ListNotations.
+
+(* ---------- reactive.Variable[V] for any comparable V and any transformation function (Event: V = bool, || ) ---------- *)
+Section Variable_.
+  Variable V : Type.
+  Variable eqV : V -> V -> bool.
+  Variable zeroV : V.
+  Variable tr : V -> V -> V.
+  Hypothesis eqV_spec : forall a b, eqV a b = true <-> a = b.
+
+  (* In every reachable state every subscriber's log is the state at subscription (when it is non-zero or the
+     zero-value trigger was requested) followed by a contiguous run of the global change sequence starting
+     right after the changes that preceded its registration: exactly once, in order. *)
+  Theorem C13_var_log_shape : forall sch c b,
+    let s := v_run V eqV zeroV tr sch (init V (V * V) (V -> V) V zeroV) in
+    cbs s c = Some b ->
+    log b = initpart V (V * V) (v_initD V zeroV) b ++ firstn (ndel b) (skipn (regat b) (hist s))
+    /\ regat b + ndel b <= length (hist s)
+    /\ initv b = fold_left (v_apply V) (firstn (regat b) (hist s)) zeroV
+    /\ val s = fold_left (v_apply V) (hist s) zeroV
+    /\ (returned b = true -> gotinit b = false -> initv b = zeroV).
+  Proof. exact (var_log_shape V eqV zeroV tr eqV_spec). Qed.
+
+  (* The global change sequence is a chain (previous value, new value), new <> previous: with the theorem above,
+     each callback's previous value is the preceding callback's new value. *)
+  Theorem C13_var_chain : forall sch,
+    chain V (V * V) (v_apply V) (v_legal V) zeroV (hist (v_run V eqV zeroV tr sch (init V (V * V) (V -> V) V zeroV))).
+  Proof. exact (var_chain V eqV zeroV tr eqV_spec). Qed.
+
+  (* When no call is in progress, a subscription that was not unsubscribed has seen everything:
+     its last reported value (the fold of its log) is the final value. *)
+  Theorem C13_var_complete : forall sch c b,
+    let s := v_run V eqV zeroV tr sch (init V (V * V) (V -> V) V zeroV) in
+    quiescent _ _ _ _ s -> cbs s c = Some b -> unsubd b = false ->
+    returned b = true /\ regat b + ndel b = length (hist s)
+    /\ log b = initpart V (V * V) (v_initD V zeroV) b ++ skipn (regat b) (hist s)
+    /\ fold_log V (V * V) (v_apply V) zeroV (log b) = val s.
+  Proof. exact (var_complete V eqV zeroV tr eqV_spec). Qed.
+
+  (* Callbacks of one subscription never overlap. *)
+  Theorem C13_var_serial_callbacks : forall sch c b,
+    cbs (v_run V eqV zeroV tr sch (init V (V * V) (V -> V) V zeroV)) c = Some b -> overlap b = false /\ incb b <= 1.
+  Proof. exact (var_serial V eqV zeroV tr eqV_spec). Qed.
+
+  (* No callback starts after its unsubscribe returned, and none is running at that moment. *)
+  Theorem C13_var_after_unsub : forall sch c b,
+    cbs (v_run V eqV zeroV tr sch (init V (V * V) (V -> V) V zeroV)) c = Some b ->
+    late b = false /\ (unsub_ret b = true -> incb b = 0).
+  Proof. exact (var_after_unsub V eqV zeroV tr eqV_spec). Qed.
+End Variable_.
+
+(* ---------- reactive.Set (finite sets as bit masks; mutations = (added, deleted)) ---------- *)
+Theorem C13_set_log_shape : forall s0 sch c b,
+  let s := s_run sch (init N (N * N) sop (N * N) s0) in
+  cbs s c = Some b ->
+  log b = initpart N (N * N) s_initD b ++ firstn (ndel b) (skipn (regat b) (hist s))
+  /\ regat b + ndel b <= length (hist s)
+  /\ initv b = fold_left s_apply (firstn (regat b) (hist s)) s0
+  /\ val s = fold_left s_apply (hist s) s0
+  /\ (returned b = true -> gotinit b = false -> initv b = 0%N).
+Proof. exact set_log_shape. Qed.
+
+(* Folding the reported mutations reproduces the set's contents. *)
+Theorem C13_set_fold : forall s0 sch c b,
+  let s := s_run sch (init N (N * N) sop (N * N) s0) in
+  quiescent _ _ _ _ s -> cbs s c = Some b -> unsubd b = false ->
+  returned b = true /\ regat b + ndel b = length (hist s)
+  /\ log b = initpart N (N * N) s_initD b ++ skipn (regat b) (hist s)
+  /\ fold_log N (N * N) s_apply 0%N (log b) = val s.
+Proof. exact set_fold. Qed.
+
+(* Every reported mutation is the true difference (added elements were absent, deleted ones present). *)
+Theorem C13_set_true_diff : forall s0 sch,
+  chain N (N * N) s_apply s_legal_p s0 (hist (s_run sch (init N (N * N) sop (N * N) s0))).
+Proof. exact set_chain. Qed.
+
+Theorem C13_set_serial_callbacks : forall s0 sch c b,
+  cbs (s_run sch (init N (N * N) sop (N * N) s0)) c = Some b -> overlap b = false /\ incb b <= 1.
+Proof. exact set_serial. Qed.
+
+Theorem C13_set_after_unsub : forall s0 sch c b,
+  cbs (s_run sch (init N (N * N) sop (N * N) s0)) c = Some b -> late b = false /\ (unsub_ret b = true -> incb b = 0).
+Proof. exact set_after_unsub. Qed.
+
+(* The pinned Set.Replace (before fix 0e0e80f, D13) reported added = all new, deleted = all previous:
+   a subscriber of {1,2} folding the report of Replace({2,3}) ended with {3} while the set was {2,3}. *)
+Theorem C13_refuted_replace_pinned :
+  let s := s_run_pinned d13_schedule (init N (N * N) sop (N * N) 6%N) in
+  val s = 12%N /\ option_map (fun b => fold_log N (N * N) s_apply 0%N (log b)) (cbs s 0) = Some 8%N.
+Proof. exact refuted_replace_pinned_run. Qed.
+
+(* Non-vacuity: an interleaved run (registration racing with a Replace, a later Apply, an unsubscribe) reaches a
+   quiescent state with non-trivial logs; the same schedule after the fix folds to the contents. *)
+Example C13_nonvacuous_run :
+  let s := s_run demo_schedule (init N (N * N) sop (N * N) 6%N) in
+  (forall t, t < 5 -> thr s t = Idle) /\ val s = 9%N /\ hist s = [(8, 2); (1, 4)]%N
+  /\ option_map (fun b => (log b, regat b, unsubd b)) (cbs s 0) = Some ([(6, 0); (8, 2); (1, 4)]%N, 0, false)
+  /\ option_map (fun b => (log b, regat b, unsubd b)) (cbs s 1) = Some ([(12, 0); (1, 4)]%N, 1, true).
+Proof. exact demo_run. Qed.
+
+Example C13_regression_replace_fixed :
+  let s := s_run d13_schedule (init N (N * N) sop (N * N) 6%N) in
+  val s = 12%N /\ option_map (fun b => fold_log N (N * N) s_apply 0%N (log b)) (cbs s 0) = Some 12%N
+  /\ thr s 0 = Idle.
+Proof. exact replace_fixed_run. Qed.
+
+Print Assumptions C13_var_log_shape.
+Print Assumptions C13_var_chain.
+Print Assumptions C13_var_complete.
+Print Assumptions C13_var_serial_callbacks.
+Print Assumptions C13_var_after_unsub.
+Print Assumptions C13_set_log_shape.
+Print Assumptions C13_set_fold.
+Print Assumptions C13_set_true_diff.
+Print Assumptions C13_set_serial_callbacks.
+Print Assumptions C13_set_after_unsub.
+Print Assumptions C13_refuted_replace_pinned.
